@@ -1,28 +1,72 @@
 #!/usr/bin/env python3
-"""Apply a seeded change (seeded/<id>/patch.diff) to /repo's working tree, run the quick checks of the
-property it targets (plus optional extra property ids), record what fired, undo the change.
-Usage: seed_eval.py <seed-id> [extra property ids...]"""
+"""Run the quick checks of a seeded change's property (plus optional extra property ids) against the change and
+record what fired in seeded/<id>/meta.json.
+
+  seed_eval.py <seed-id> [extra property ids...]            apply to /repo's working tree, run /verif/check, undo
+  seed_eval.py --isolated <seed-id> [extra property ids...]  same checks, but on a scratch worktree of /repo's HEAD with
+        the patch applied (/tmp/ev/repo) driven by a copy of /verif whose '/repo' paths point there (/tmp/ev/verif), so
+        that /repo stays untouched and other work can go on; serialised by a lock; the copy keeps its build cache.
+"""
 import json, os, subprocess, sys, time
 ROOT = os.path.dirname(os.path.dirname(os.path.abspath(__file__)))
-sid = sys.argv[1]
+args = sys.argv[1:]
+isolated = '--isolated' in args
+args = [a for a in args if a != '--isolated']
+sid = args[0]
 d = f'{ROOT}/seeded/{sid}'
 meta = json.load(open(f'{d}/meta.json'))
-props = [meta['property']] + sys.argv[2:]
+props = [meta['property']] + args[1:]
+
+
 def sh(*a, **kw):
     return subprocess.run(a, capture_output=True, text=True, **kw)
-assert sh('git', '-C', '/repo', 'status', '--porcelain').stdout.strip() == '', '/repo not clean'
-r = sh('git', '-C', '/repo', 'apply', f'{d}/patch.diff')
-assert r.returncode == 0, r.stderr
-try:
+
+
+def run_checks(root):
     results = meta.setdefault('check_results', {})
     for p in props:
         t0 = time.time()
-        c = sh(f'{ROOT}/check', p, cwd=ROOT, env=dict(os.environ, VERIF_SEED=os.environ.get('VERIF_SEED', '1')))
-        lines = [l for l in c.stdout.splitlines() if l.startswith('VIOLATION') or (l.startswith('  ') and 'kind=' in l)]
+        c = sh(f'{root}/check', p, cwd=root, env=dict(os.environ, VERIF_SEED=os.environ.get('VERIF_SEED', '1')))
+        lines = [l for l in c.stdout.splitlines() if l.startswith('VIOLATION') or l.startswith('KNOWN-FINDING') or (l.startswith('  ') and 'kind=' in l)]
         results[p] = {'exit': c.returncode, 'caught': c.returncode == 1, 'witness': lines[:4], 'wall_s': round(time.time() - t0, 1),
-                      'seed': os.environ.get('VERIF_SEED', '1')}
-        print(sid, p, 'exit', c.returncode, lines[1][:260] if len(lines) > 1 else '')
-finally:
-    sh('git', '-C', '/repo', 'checkout', '--', '.')
-    assert sh('git', '-C', '/repo', 'status', '--porcelain').stdout.strip() == '', '/repo not restored'
+                      'seed': os.environ.get('VERIF_SEED', '1'), 'isolated': isolated}
+        if c.returncode not in (0, 1):
+            results[p]['tail'] = (c.stdout + c.stderr)[-1500:]
+        print(sid, p, 'exit', c.returncode, lines[1][:260] if len(lines) > 1 else '', flush=True)
+
+
+if not isolated:
+    assert sh('git', '-C', '/repo', 'status', '--porcelain').stdout.strip() == '', '/repo not clean'
+    r = sh('git', '-C', '/repo', 'apply', f'{d}/patch.diff')
+    assert r.returncode == 0, r.stderr
+    try:
+        run_checks(ROOT)
+    finally:
+        sh('git', '-C', '/repo', 'checkout', '--', '.')
+        assert sh('git', '-C', '/repo', 'status', '--porcelain').stdout.strip() == '', '/repo not restored'
+else:
+    import fcntl
+    os.makedirs('/tmp/ev', exist_ok=True)
+    lock = open('/tmp/ev/lock', 'w')
+    fcntl.flock(lock, fcntl.LOCK_EX)
+    head = sh('git', '-C', '/repo', 'rev-parse', 'HEAD').stdout.strip()
+    if not os.path.exists('/tmp/ev/repo'):
+        r = sh('git', '-C', '/repo', 'worktree', 'add', '--detach', '/tmp/ev/repo', head)
+        assert r.returncode == 0, r.stderr
+    sh('git', '-C', '/tmp/ev/repo', 'checkout', '--', '.')
+    r = sh('git', '-C', '/tmp/ev/repo', 'checkout', '--detach', head)
+    assert r.returncode == 0, r.stderr
+    r = sh('git', '-C', '/tmp/ev/repo', 'apply', f'{d}/patch.diff')
+    assert r.returncode == 0, r.stderr
+    sh('rsync', '-a', '--delete', '--exclude', 'target', '--exclude', '.git', '--exclude', 'replays', '--exclude', 'evidence', '--exclude', '__pycache__',
+       f'{ROOT}/', '/tmp/ev/verif/')
+    os.makedirs('/tmp/ev/verif/evidence', exist_ok=True)
+    for f in ('check', 'qdriver.py', 'rt/Cargo.toml', 'q/Cargo.toml'):
+        p = f'/tmp/ev/verif/{f}'
+        s = open(p).read().replace('/repo', '/tmp/ev/repo')
+        open(p, 'w').write(s)
+    try:
+        run_checks('/tmp/ev/verif')
+    finally:
+        sh('git', '-C', '/tmp/ev/repo', 'checkout', '--', '.')
 json.dump(meta, open(f'{d}/meta.json', 'w'), indent=1)
